@@ -30,6 +30,7 @@ import (
 
 	"verif/internal/keys"
 	"verif/internal/mon"
+	"verif/internal/sched"
 	"verif/internal/vclient"
 )
 
@@ -82,6 +83,9 @@ type FaultPlan struct {
 	At     int
 	Method string
 	Kind   FaultKind
+	// Err, when non-nil, is the error value the fault answers with instead of Kind.Err() (nil = today's behaviour):
+	// a storage may fail with any Go error - every *oidc.Error type, wrapped ones, op.StatusError, own error types.
+	Err error
 }
 
 type User struct {
@@ -115,27 +119,27 @@ type AuthReq struct {
 // AuthReqSnap is the immutable snapshot handed to the framework.
 type AuthReqSnap struct{ r AuthReq }
 
-func (a *AuthReqSnap) GetID() string                         { return a.r.ID }
-func (a *AuthReqSnap) GetACR() string                        { return a.r.ACR }
-func (a *AuthReqSnap) GetAMR() []string                      { return a.r.AMR }
-func (a *AuthReqSnap) GetAudience() []string                 { return a.r.Audience }
-func (a *AuthReqSnap) GetAuthTime() time.Time                { return a.r.AuthTime }
-func (a *AuthReqSnap) GetClientID() string                   { return a.r.ClientID }
-func (a *AuthReqSnap) GetCodeChallenge() *oidc.CodeChallenge { return a.r.Challenge }
-func (a *AuthReqSnap) GetNonce() string                      { return a.r.Nonce }
-func (a *AuthReqSnap) GetRedirectURI() string                { return a.r.RedirectURI }
-func (a *AuthReqSnap) GetResponseType() oidc.ResponseType    { return a.r.ResponseType }
-func (a *AuthReqSnap) GetResponseMode() oidc.ResponseMode    { return a.r.ResponseMode }
-func (a *AuthReqSnap) GetScopes() []string                   { return a.r.Scopes }
-func (a *AuthReqSnap) GetState() string                      { return a.r.State }
-func (a *AuthReqSnap) GetSubject() string                    { return a.r.Subject }
-func (a *AuthReqSnap) Done() bool                            { return a.r.IsDone }
+func (a *AuthReqSnap) GetID() string { sched.Point("authreq:GetID"); return a.r.ID }
+func (a *AuthReqSnap) GetACR() string { sched.Point("authreq:GetACR"); return a.r.ACR }
+func (a *AuthReqSnap) GetAMR() []string { sched.Point("authreq:GetAMR"); return a.r.AMR }
+func (a *AuthReqSnap) GetAudience() []string { sched.Point("authreq:GetAudience"); return a.r.Audience }
+func (a *AuthReqSnap) GetAuthTime() time.Time { sched.Point("authreq:GetAuthTime"); return a.r.AuthTime }
+func (a *AuthReqSnap) GetClientID() string { sched.Point("authreq:GetClientID"); return a.r.ClientID }
+func (a *AuthReqSnap) GetCodeChallenge() *oidc.CodeChallenge { sched.Point("authreq:GetCodeChallenge"); return a.r.Challenge }
+func (a *AuthReqSnap) GetNonce() string { sched.Point("authreq:GetNonce"); return a.r.Nonce }
+func (a *AuthReqSnap) GetRedirectURI() string { sched.Point("authreq:GetRedirectURI"); return a.r.RedirectURI }
+func (a *AuthReqSnap) GetResponseType() oidc.ResponseType { sched.Point("authreq:GetResponseType"); return a.r.ResponseType }
+func (a *AuthReqSnap) GetResponseMode() oidc.ResponseMode { sched.Point("authreq:GetResponseMode"); return a.r.ResponseMode }
+func (a *AuthReqSnap) GetScopes() []string { sched.Point("authreq:GetScopes"); return a.r.Scopes }
+func (a *AuthReqSnap) GetState() string { sched.Point("authreq:GetState"); return a.r.State }
+func (a *AuthReqSnap) GetSubject() string { sched.Point("authreq:GetSubject"); return a.r.Subject }
+func (a *AuthReqSnap) Done() bool { sched.Point("authreq:Done"); return a.r.IsDone }
 func (a *AuthReqSnap) Record() AuthReq                       { return a.r }
 
 // AuthReqSnapSS additionally implements op.AuthRequestSessionState.
 type AuthReqSnapSS struct{ *AuthReqSnap }
 
-func (a AuthReqSnapSS) GetSessionState() string { return a.r.SessionState }
+func (a AuthReqSnapSS) GetSessionState() string { sched.Point("authreq:GetSessionState"); return a.r.SessionState }
 
 type Token struct {
 	ID        string
@@ -212,9 +216,12 @@ type Device struct {
 	Subject    string
 	AuthTime   time.Time
 	AMR        []string
-	version    int
-	snap       *op.DeviceAuthorizationState
-	snapVer    int
+	// Audience is what the approval page / storage registers as DeviceAuthorizationState.Audience (set through
+	// EditDevice; nil = none, today's behaviour): e.g. the API the device talks to, with or without the client.
+	Audience []string
+	version  int
+	snap     *op.DeviceAuthorizationState
+	snapVer  int
 }
 
 // TEPolicy is what ValidateTokenExchangeRequest decides.
@@ -268,7 +275,7 @@ type Store struct {
 	// repository's example storage does: a client stored without a secret "matches" the empty secret. The default
 	// (false) refuses every client that has no secret.
 	NaiveSecrets bool
-	SessionState    string // non-empty: auth requests implement AuthRequestSessionState with this value
+	SessionState    string // non-empty: auth requests implement AuthRequestSessionState with this value (SessionStateFromState: "ss-"+state of the request)
 	PrivateClaims   map[string]any
 	UserinfoClaims  map[string]any
 	TEPolicy        TEPolicy
@@ -433,6 +440,9 @@ func (s *Store) enter(method, a, b, c string, obj any) (int, error) {
 	if p := s.plan; p != nil {
 		if (p.At > 0 && s.calls == p.At) || (p.Method != "" && p.Method == method) {
 			ferr = p.Kind.Err()
+			if p.Err != nil {
+				ferr = p.Err
+			}
 			s.fired++
 		}
 	}
@@ -621,6 +631,7 @@ func (s *Store) RefreshLive(id string) bool {
 // ---------- op.AuthStorage ----------
 
 func (s *Store) CreateAuthRequest(ctx context.Context, req *oidc.AuthRequest, userID string) (op.AuthRequest, error) {
+	defer sched.Storage("CreateAuthRequest")()
 	s.mu.Lock()
 	defer s.mu.Unlock()
 	var cp oidc.AuthRequest
@@ -649,6 +660,10 @@ func (s *Store) CreateAuthRequest(ctx context.Context, req *oidc.AuthRequest, us
 		Scopes: slices.Clone([]string(req.Scopes)), ResponseType: req.ResponseType, ResponseMode: req.ResponseMode,
 		Audience: []string{req.ClientID}, SessionState: s.SessionState, HintUser: userID, Orig: cp,
 	}
+	if s.SessionState == SessionStateFromState {
+		// a session state of its own per request, derived from the request's state (carries the request's marker)
+		r.SessionState = "ss-" + req.State
+	}
 	if req.CodeChallenge != "" {
 		r.Challenge = &oidc.CodeChallenge{Challenge: req.CodeChallenge, Method: req.CodeChallengeMethod}
 	}
@@ -656,6 +671,9 @@ func (s *Store) CreateAuthRequest(ctx context.Context, req *oidc.AuthRequest, us
 	s.leave(idx, r.ID, nil)
 	return s.snap(r), nil
 }
+
+// SessionStateFromState as Store.SessionState gives every auth request the session state "ss-" + its state parameter.
+const SessionStateFromState = "@from-state"
 
 func (s *Store) snap(r *AuthReq) op.AuthRequest {
 	c := *r
@@ -674,6 +692,7 @@ func (s *Store) snap(r *AuthReq) op.AuthRequest {
 }
 
 func (s *Store) AuthRequestByID(ctx context.Context, id string) (op.AuthRequest, error) {
+	defer sched.Storage("AuthRequestByID")()
 	s.mu.Lock()
 	defer s.mu.Unlock()
 	idx, ferr := s.enter("AuthRequestByID", id, "", "", nil)
@@ -690,6 +709,7 @@ func (s *Store) AuthRequestByID(ctx context.Context, id string) (op.AuthRequest,
 }
 
 func (s *Store) AuthRequestByCode(ctx context.Context, code string) (op.AuthRequest, error) {
+	defer sched.Storage("AuthRequestByCode")()
 	s.mu.Lock()
 	defer s.mu.Unlock()
 	idx, ferr := s.enter("AuthRequestByCode", code, "", "", nil)
@@ -707,6 +727,7 @@ func (s *Store) AuthRequestByCode(ctx context.Context, code string) (op.AuthRequ
 }
 
 func (s *Store) SaveAuthCode(ctx context.Context, id, code string) error {
+	defer sched.Storage("SaveAuthCode")()
 	s.mu.Lock()
 	defer s.mu.Unlock()
 	idx, ferr := s.enter("SaveAuthCode", id, code, "", nil)
@@ -723,6 +744,7 @@ func (s *Store) SaveAuthCode(ctx context.Context, id, code string) error {
 }
 
 func (s *Store) DeleteAuthRequest(ctx context.Context, id string) error {
+	defer sched.Storage("DeleteAuthRequest")()
 	s.mu.Lock()
 	defer s.mu.Unlock()
 	_, ferr := s.enter("DeleteAuthRequest", id, "", "", nil)
@@ -796,6 +818,7 @@ func (s *Store) mint(info reqInfo) *Token {
 }
 
 func (s *Store) CreateAccessToken(ctx context.Context, req op.TokenRequest) (string, time.Time, error) {
+	defer sched.Storage("CreateAccessToken")()
 	s.mu.Lock()
 	defer s.mu.Unlock()
 	info, derr := describe(req)
@@ -814,6 +837,8 @@ func (s *Store) CreateAccessToken(ctx context.Context, req op.TokenRequest) (str
 }
 
 func (s *Store) CreateAccessAndRefreshTokens(ctx context.Context, req op.TokenRequest, current string) (string, string, time.Time, error) {
+	s.gate("CreateAccessAndRefreshTokens", current) // no-op unless a check installed a gate (gate.go)
+	defer sched.Storage("CreateAccessAndRefreshTokens")()
 	s.mu.Lock()
 	defer s.mu.Unlock()
 	info, derr := describe(req)
@@ -852,6 +877,7 @@ func (s *Store) CreateAccessAndRefreshTokens(ctx context.Context, req op.TokenRe
 }
 
 func (s *Store) TokenRequestByRefreshToken(ctx context.Context, refreshToken string) (op.RefreshTokenRequest, error) {
+	defer sched.Storage("TokenRequestByRefreshToken")()
 	s.mu.Lock()
 	defer s.mu.Unlock()
 	idx, ferr := s.enter("TokenRequestByRefreshToken", refreshToken, "", "", nil)
@@ -895,6 +921,7 @@ func (s *Store) terminate(userID, clientID string) {
 }
 
 func (s *Store) TerminateSession(ctx context.Context, userID, clientID string) error {
+	defer sched.Storage("TerminateSession")()
 	s.mu.Lock()
 	defer s.mu.Unlock()
 	_, ferr := s.enter("TerminateSession", userID, clientID, "", nil)
@@ -909,6 +936,7 @@ func (s *Store) TerminateSession(ctx context.Context, userID, clientID string) e
 }
 
 func (s *Store) RevokeToken(ctx context.Context, tokenOrID, userID, clientID string) *oidc.Error {
+	defer sched.Storage("RevokeToken")()
 	s.mu.Lock()
 	defer s.mu.Unlock()
 	idx, ferr := s.enter("RevokeToken", tokenOrID, userID, clientID, nil)
@@ -947,6 +975,7 @@ func (s *Store) RevokeToken(ctx context.Context, tokenOrID, userID, clientID str
 }
 
 func (s *Store) GetRefreshTokenInfo(ctx context.Context, clientID, token string) (string, string, error) {
+	defer sched.Storage("GetRefreshTokenInfo")()
 	s.mu.Lock()
 	defer s.mu.Unlock()
 	idx, ferr := s.enter("GetRefreshTokenInfo", clientID, token, "", nil)
@@ -962,6 +991,7 @@ func (s *Store) GetRefreshTokenInfo(ctx context.Context, clientID, token string)
 }
 
 func (s *Store) SigningKey(ctx context.Context) (op.SigningKey, error) {
+	defer sched.Storage("SigningKey")()
 	s.mu.Lock()
 	defer s.mu.Unlock()
 	idx, ferr := s.enter("SigningKey", "", "", "", nil)
@@ -979,6 +1009,7 @@ func (s *Store) SigningKey(ctx context.Context) (op.SigningKey, error) {
 }
 
 func (s *Store) SignatureAlgorithms(ctx context.Context) ([]jose.SignatureAlgorithm, error) {
+	defer sched.Storage("SignatureAlgorithms")()
 	s.mu.Lock()
 	defer s.mu.Unlock()
 	_, ferr := s.enter("SignatureAlgorithms", "", "", "", nil)
@@ -995,6 +1026,7 @@ func (s *Store) SignatureAlgorithms(ctx context.Context) ([]jose.SignatureAlgori
 }
 
 func (s *Store) KeySet(ctx context.Context) ([]op.Key, error) {
+	defer sched.Storage("KeySet")()
 	s.mu.Lock()
 	defer s.mu.Unlock()
 	_, ferr := s.enter("KeySet", "", "", "", nil)
@@ -1014,6 +1046,7 @@ func (s *Store) KeySet(ctx context.Context) ([]op.Key, error) {
 // ---------- op.OPStorage ----------
 
 func (s *Store) GetClientByClientID(ctx context.Context, clientID string) (op.Client, error) {
+	defer sched.Storage("GetClientByClientID")()
 	s.mu.Lock()
 	defer s.mu.Unlock()
 	idx, ferr := s.enter("GetClientByClientID", clientID, "", "", nil)
@@ -1030,6 +1063,7 @@ func (s *Store) GetClientByClientID(ctx context.Context, clientID string) (op.Cl
 }
 
 func (s *Store) AuthorizeClientIDSecret(ctx context.Context, clientID, clientSecret string) error {
+	defer sched.Storage("AuthorizeClientIDSecret")()
 	s.mu.Lock()
 	defer s.mu.Unlock()
 	idx, ferr := s.enter("AuthorizeClientIDSecret", clientID, "", "", nil)
@@ -1083,6 +1117,7 @@ func (s *Store) fillUser(ui *oidc.UserInfo, userID string, scopes []string) {
 }
 
 func (s *Store) SetUserinfoFromScopes(ctx context.Context, ui *oidc.UserInfo, userID, clientID string, scopes []string) error {
+	defer sched.Storage("SetUserinfoFromScopes")()
 	s.mu.Lock()
 	defer s.mu.Unlock()
 	idx, ferr := s.enter("SetUserinfoFromScopes", userID, clientID, strings.Join(scopes, " "), nil)
@@ -1099,6 +1134,7 @@ func (s *Store) SetUserinfoFromScopes(ctx context.Context, ui *oidc.UserInfo, us
 }
 
 func (s *Store) SetUserinfoFromToken(ctx context.Context, ui *oidc.UserInfo, tokenID, subject, origin string) error {
+	defer sched.Storage("SetUserinfoFromToken")()
 	s.mu.Lock()
 	defer s.mu.Unlock()
 	idx, ferr := s.enter("SetUserinfoFromToken", tokenID, subject, origin, nil)
@@ -1118,6 +1154,7 @@ func (s *Store) SetUserinfoFromToken(ctx context.Context, ui *oidc.UserInfo, tok
 }
 
 func (s *Store) SetIntrospectionFromToken(ctx context.Context, resp *oidc.IntrospectionResponse, tokenID, subject, clientID string) error {
+	defer sched.Storage("SetIntrospectionFromToken")()
 	s.mu.Lock()
 	defer s.mu.Unlock()
 	idx, ferr := s.enter("SetIntrospectionFromToken", tokenID, subject, clientID, nil)
@@ -1151,6 +1188,7 @@ func (s *Store) SetIntrospectionFromToken(ctx context.Context, resp *oidc.Intros
 }
 
 func (s *Store) GetPrivateClaimsFromScopes(ctx context.Context, userID, clientID string, scopes []string) (map[string]any, error) {
+	defer sched.Storage("GetPrivateClaimsFromScopes")()
 	s.mu.Lock()
 	defer s.mu.Unlock()
 	idx, ferr := s.enter("GetPrivateClaimsFromScopes", userID, clientID, strings.Join(scopes, " "), nil)
@@ -1170,6 +1208,7 @@ func (s *Store) GetPrivateClaimsFromScopes(ctx context.Context, userID, clientID
 }
 
 func (s *Store) GetKeyByIDAndClientID(ctx context.Context, keyID, clientID string) (*jose.JSONWebKey, error) {
+	defer sched.Storage("GetKeyByIDAndClientID")()
 	s.mu.Lock()
 	defer s.mu.Unlock()
 	idx, ferr := s.enter("GetKeyByIDAndClientID", keyID, clientID, "", nil)
@@ -1190,6 +1229,7 @@ func (s *Store) GetKeyByIDAndClientID(ctx context.Context, keyID, clientID strin
 var KnownScopes = []string{oidc.ScopeOpenID, oidc.ScopeProfile, oidc.ScopeEmail, oidc.ScopePhone, oidc.ScopeAddress, oidc.ScopeOfflineAccess, "api"}
 
 func (s *Store) ValidateJWTProfileScopes(ctx context.Context, userID string, scopes []string) ([]string, error) {
+	defer sched.Storage("ValidateJWTProfileScopes")()
 	s.mu.Lock()
 	defer s.mu.Unlock()
 	idx, ferr := s.enter("ValidateJWTProfileScopes", userID, strings.Join(scopes, " "), "", nil)
@@ -1210,6 +1250,7 @@ func (s *Store) ValidateJWTProfileScopes(ctx context.Context, userID string, sco
 }
 
 func (s *Store) Health(ctx context.Context) error {
+	defer sched.Storage("Health")()
 	s.mu.Lock()
 	defer s.mu.Unlock()
 	_, ferr := s.enter("Health", "", "", "", nil)
@@ -1222,6 +1263,7 @@ func (s *Store) Health(ctx context.Context) error {
 // ---------- optional capabilities (reached through the adapter types in caps.go) ----------
 
 func (s *Store) clientCredentials(ctx context.Context, clientID, secret string) (op.Client, error) {
+	defer sched.Storage("ClientCredentials")()
 	s.mu.Lock()
 	defer s.mu.Unlock()
 	idx, ferr := s.enter("ClientCredentials", clientID, "", "", nil)
@@ -1239,6 +1281,7 @@ func (s *Store) clientCredentials(ctx context.Context, clientID, secret string) 
 }
 
 func (s *Store) clientCredentialsTokenRequest(ctx context.Context, clientID string, scopes []string) (op.TokenRequest, error) {
+	defer sched.Storage("ClientCredentialsTokenRequest")()
 	s.mu.Lock()
 	defer s.mu.Unlock()
 	idx, ferr := s.enter("ClientCredentialsTokenRequest", clientID, strings.Join(scopes, " "), "", nil)
@@ -1294,6 +1337,7 @@ func (s *Store) vetTEToken(kind string, tt oidc.TokenType, idOrToken, subject st
 }
 
 func (s *Store) validateTokenExchangeRequest(ctx context.Context, req op.TokenExchangeRequest) error {
+	defer sched.Storage("ValidateTokenExchangeRequest")()
 	s.mu.Lock()
 	defer s.mu.Unlock()
 	idx, ferr := s.enter("ValidateTokenExchangeRequest", req.GetExchangeSubject(), string(req.GetExchangeSubjectTokenType()), string(req.GetRequestedTokenType()), nil)
@@ -1336,6 +1380,7 @@ func (s *Store) validateTokenExchangeRequest(ctx context.Context, req op.TokenEx
 }
 
 func (s *Store) createTokenExchangeRequest(ctx context.Context, req op.TokenExchangeRequest) error {
+	defer sched.Storage("CreateTokenExchangeRequest")()
 	s.mu.Lock()
 	defer s.mu.Unlock()
 	idx, ferr := s.enter("CreateTokenExchangeRequest", req.GetSubject(), req.GetClientID(), "", nil)
@@ -1351,6 +1396,7 @@ func (s *Store) createTokenExchangeRequest(ctx context.Context, req op.TokenExch
 }
 
 func (s *Store) getPrivateClaimsFromTokenExchangeRequest(ctx context.Context, req op.TokenExchangeRequest) (map[string]any, error) {
+	defer sched.Storage("GetPrivateClaimsFromTokenExchangeRequest")()
 	s.mu.Lock()
 	defer s.mu.Unlock()
 	idx, ferr := s.enter("GetPrivateClaimsFromTokenExchangeRequest", req.GetSubject(), "", "", nil)
@@ -1373,6 +1419,7 @@ func (s *Store) getPrivateClaimsFromTokenExchangeRequest(ctx context.Context, re
 }
 
 func (s *Store) setUserinfoFromTokenExchangeRequest(ctx context.Context, ui *oidc.UserInfo, req op.TokenExchangeRequest) error {
+	defer sched.Storage("SetUserinfoFromTokenExchangeRequest")()
 	s.mu.Lock()
 	defer s.mu.Unlock()
 	idx, ferr := s.enter("SetUserinfoFromTokenExchangeRequest", req.GetSubject(), "", "", nil)
@@ -1395,6 +1442,7 @@ func (s *Store) setUserinfoFromTokenExchangeRequest(ctx context.Context, ui *oid
 }
 
 func (s *Store) storeDeviceAuthorization(ctx context.Context, clientID, deviceCode, userCode string, expires time.Time, scopes []string) error {
+	defer sched.Storage("StoreDeviceAuthorization")()
 	s.mu.Lock()
 	defer s.mu.Unlock()
 	idx, ferr := s.enter("StoreDeviceAuthorization", clientID, deviceCode, userCode, strings.Join(scopes, " "))
@@ -1421,6 +1469,7 @@ func (s *Store) storeDeviceAuthorization(ctx context.Context, clientID, deviceCo
 }
 
 func (s *Store) getDeviceAuthorizatonState(ctx context.Context, clientID, deviceCode string) (*op.DeviceAuthorizationState, error) {
+	defer sched.Storage("GetDeviceAuthorizatonState")()
 	if s.BlockDeviceLookup.Load() {
 		var err error
 		if _, ok := ctx.Deadline(); !ok {
@@ -1439,6 +1488,7 @@ func (s *Store) getDeviceAuthorizatonState(ctx context.Context, clientID, device
 		s.leave(idx, "", err)
 		return nil, err
 	}
+	defer sched.Storage("GetDeviceAuthorizatonState")()
 	s.mu.Lock()
 	defer s.mu.Unlock()
 	idx, ferr := s.enter("GetDeviceAuthorizatonState", clientID, deviceCode, "", nil)
@@ -1461,6 +1511,7 @@ func (s *Store) getDeviceAuthorizatonState(ctx context.Context, clientID, device
 	st := &op.DeviceAuthorizationState{
 		ClientID: d.ClientID, Scopes: slices.Clone(d.Scopes), Expires: d.Expires, Done: d.Done, Denied: d.Denied,
 		Subject: d.Subject, AMR: slices.Clone(d.AMR), AuthTime: d.AuthTime,
+		Audience: slices.Clone(d.Audience), // nil unless a check registered one (EditDevice)
 	}
 	d.snap, d.snapVer = st, d.version
 	state := "pending"
@@ -1474,6 +1525,7 @@ func (s *Store) getDeviceAuthorizatonState(ctx context.Context, clientID, device
 }
 
 func (s *Store) terminateSessionFromRequest(ctx context.Context, r *op.EndSessionRequest) (string, error) {
+	defer sched.Storage("TerminateSessionFromRequest")()
 	s.mu.Lock()
 	defer s.mu.Unlock()
 	_, ferr := s.enter("TerminateSessionFromRequest", r.UserID, r.ClientID, r.RedirectURI, nil)
@@ -1488,6 +1540,7 @@ func (s *Store) terminateSessionFromRequest(ctx context.Context, r *op.EndSessio
 }
 
 func (s *Store) setUserinfoFromRequest(ctx context.Context, ui *oidc.UserInfo, req op.IDTokenRequest, scopes []string) error {
+	defer sched.Storage("SetUserinfoFromRequest")()
 	s.mu.Lock()
 	defer s.mu.Unlock()
 	_, ferr := s.enter("SetUserinfoFromRequest", req.GetSubject(), req.GetClientID(), strings.Join(scopes, " "), nil)
@@ -1501,6 +1554,7 @@ func (s *Store) setUserinfoFromRequest(ctx context.Context, ui *oidc.UserInfo, r
 }
 
 func (s *Store) getPrivateClaimsFromRequest(ctx context.Context, req op.TokenRequest, scopes []string) (map[string]any, error) {
+	defer sched.Storage("GetPrivateClaimsFromRequest")()
 	s.mu.Lock()
 	defer s.mu.Unlock()
 	_, ferr := s.enter("GetPrivateClaimsFromRequest", req.GetSubject(), strings.Join(scopes, " "), "", nil)
@@ -1515,6 +1569,7 @@ func (s *Store) getPrivateClaimsFromRequest(ctx context.Context, req op.TokenReq
 }
 
 func (s *Store) jwtProfileTokenType(ctx context.Context, req op.TokenRequest) (op.AccessTokenType, error) {
+	defer sched.Storage("JWTProfileTokenType")()
 	s.mu.Lock()
 	defer s.mu.Unlock()
 	_, ferr := s.enter("JWTProfileTokenType", req.GetSubject(), "", "", nil)
